@@ -8,7 +8,9 @@
  *   rt g0..g7                  -> r <ret> <text> <pret> pg0..pg7 <ret2> <text2> | <lok> lg0..lg7
  *        text = irc_ntop(a,40); p = irc_pton(text, NULL, 0); l = inet_pton(text); text2 = irc_ntop(p)
  * Groups are hex, host order.  Every object handed to the code under test is an exactly
- * sized heap object so that ASan sees any access outside it.
+ * sized heap object so that ASan sees any access outside it.  `*bits` is pre-loaded with a
+ * sentinel: a value that is still the sentinel afterwards is reported as `-` (never written).
+ * iauth_misc.c is compiled with -fno-sanitize=shift (F23, `1.2.3.4.5`), see vlib/eng_addr.py.
  */
 #include "modules/iauth.h"
 #include <arpa/inet.h>
